@@ -535,11 +535,47 @@ class Executor:
         unexpected_input_changes = len(new_inp_hashes) > 0
         if unexpected_input_changes:
             async with self.db:
-                self.workflow.update_file_hashes(new_inp_hashes, cause=HashUpdateCause.FAILED)
+                if self._input_changes_are_known(step, inp_hashes, new_inp_hashes):
+                    # Nothing unexpected happened: the job was derived from hashes that
+                    # the workflow itself has replaced in the meantime.
+                    # Hashing the inputs can take a while, and meanwhile a plan can redefine
+                    # the producer of an input, which then runs again and rewrites the file.
+                    # Queue the step again, to be dispatched with the current inputs.
+                    step.set_state(StepState.PENDING)
+                    unexpected_input_changes = False
+                    requeue = True
+                else:
+                    self.workflow.update_file_hashes(new_inp_hashes, cause=HashUpdateCause.FAILED)
+                    requeue = False
+            if requeue:
+                self.scheduler.record_run_stopped(step.i, succeeded=False)
+                self._report_step_counts()
+                return run, None
         await self._finalize_failed_run(run)
         if unexpected_input_changes:
             await self._drain_for_unexpected_input_changes()
         return run, None
+
+    @staticmethod
+    def _input_changes_are_known(
+        step: Step, inp_hashes: Mapping[str, FileHash], new_inp_hashes: Mapping[str, FileHash]
+    ) -> bool:
+        """Tell whether the workflow already accounts for every input found changed on disk.
+
+        Must be called inside a database transaction.
+        That is the case for an input that is no longer an available input of the step,
+        or whose stored hash is no longer the one the job was derived from.
+        """
+        current = {rec.path: rec for rec in step.inp_paths()}
+        for path in new_inp_hashes:
+            rec = current.get(path)
+            if (
+                rec is not None
+                and rec.state in (FileState.BUILT, FileState.CONFIRMED)
+                and rec.hash == inp_hashes[path]
+            ):
+                return False
+        return True
 
     async def _finalize_failed_run(self, run: Run) -> None:
         """Complete, record and report a run that failed before producing a new step hash."""
